@@ -77,8 +77,10 @@ class IRFunction(ir.Function):
     def add_nested_function(self, fun: IRFunction) -> None:
         self.nested_functions[fun.name] = fun
 
-    def get_called_functions(self) -> dict[str, values.OnnxFunction]:
-        called_functions: dict[str, values.OnnxFunction] = {}
+    def get_called_functions(self) -> dict[tuple[str, str], values.OnnxFunction]:
+        # Keyed by (domain, name): two functions with the same name in different domains
+        # are different functions, and the model needs both.
+        called_functions: dict[tuple[str, str], values.OnnxFunction] = {}
 
         def visit(function_ir: IRFunction):
             for node in ir.traversal.RecursiveGraphIterator(function_ir.graph):
@@ -87,9 +89,10 @@ class IRFunction(ir.Function):
                     add(callee)
 
         def add(f: values.OnnxFunction):
-            if f.name in called_functions:
+            key = (f.function_ir.domain, f.name)
+            if key in called_functions:
                 return
-            called_functions[f.name] = f
+            called_functions[key] = f
             visit(f.function_ir)
 
         visit(self)
